@@ -36,6 +36,7 @@ own = [
  ("revert D6 `17eeb9a`", "C14", "refill panics at counter 2^64-1 in debug", "overflow checks + counter within 4 of 2^64", "`C14 quick` -> R0 (checked/dev legs)"),
  ("revert D7 `eb6fba9`", "C03", "BLAKE-384/512 wrong digest on SSE2-only backend", "host without SSSE3 (simulated level 1 or nostd-sse2 build)", "`C03 quick` -> X1 hosts disagree (minimised to one `final` on Blake384)"),
  ("scratch: Groestl lazy_static -> racy `static mut` + flag", "C18", "one-time init of the Groestl function pointers is racy", "two threads' first Groestl calls overlapping", "`C18 quick` -> T1 data race (Miri)"),
+ ("scratch: ChaCha's double-round count handed to the tail loop through a process-wide atomic", "C18", "a call uses the round count of whichever variant stored last", "two ChaCha variants with different round counts in overlapping calls", "`C18 quick` -> T1 result differs from the sequential expectation, needs overlap (family mix hammer 147 via `tools/miri_only.py quick 147`: 1 of its 2 quick jobs; also first-call workload 19, whose later calls are other kinds)"),
  ("scratch: Skein config block cached in a function-local `static`", "C18", "all output sizes share one cached IV (fails the existing suite, kept only as a probe)", "two Skein output sizes of one state size in one process", "`C18 quick` -> L3 cold-process isolation"),
  ("scratch: aligned load in Groestl tf512 / extra byte read in JH f8", "C16", "aligned intrinsic / over-read", "unaligned block / block ending at a page edge", "`C16 quick` -> M2 process killed by SIGSEGV, reduced to one operation"),
  ("scratch: four counter truncations (BLAKE carry, Groestl u32, JH u32, Skein u32)", "C17", "counter loses bits above 2^32", "counter next to 2^32 / 2^64", "`C17 quick` -> K1/K2"),
